@@ -150,6 +150,8 @@ def _desc(v, idmap):
 
 
 # (expression, decoder) of every real column whose value identifies ...
+# The directive columns are the SAME accessor objects in both tables (PostingsTable.columns starts as a copy of
+# EntriesTable.columns): one list for both, so that concurrent scans of different tables meet in one accessor.
 DIRECTIVE_COLS = [       # ... the directive (both tables)
     ('id', _id), ('narration', _tail('n')), ('date', _num), ('payee', _tail('p')), ('links', _tail('l')),
     ('tags', _tail('t')), ('description', _desc),
@@ -159,8 +161,6 @@ POSTING_COLS = [         # ... the posting (postings table)
     ('account', _tail('Assets:A')), ('number', _num), ('lineno', _num), ('units(position)', _units), ('position', _units),
     ("meta('lineno')", _num), ('leaf(account)', _tail('A')), ('weight', _units), ("any_meta('lineno')", _num),
 ]
-# the directive columns are the SAME accessor objects in both tables (PostingsTable.columns starts as a copy of
-# EntriesTable.columns): one list for both, so that concurrent scans of different tables meet in one accessor
 KEY_COL = ('lineno', _num)       # int on both tables: the directive's / the posting's own number
 
 
